@@ -600,14 +600,19 @@ static int get_elements_in_peer(const struct peer *p, const cJSON *request, cons
 
 int notify_fetchers(const struct element *e, const char *event_name)
 {
+	int ret = 0;
 	for (unsigned int i = 0; i < e->fetch_table_size; i++) {
 		const struct fetch *f = e->fetcher_table[i];
 		if ((f != NULL) &&
 		    (unlikely(notify_fetching_peer(e, f, event_name) != 0))) {
-			return -1;
+			/*
+			 * A fetcher that can not be notified must not keep the
+			 * fetchers behind it from being notified.
+			 */
+			ret = -1;
 		}
 	}
-	return 0;
+	return ret;
 }
 
 cJSON *add_fetch_to_states(const struct peer *request_peer, const cJSON *request, struct fetch *f)
